@@ -12,8 +12,6 @@ import (
 	"sync"
 	"time"
 
-	"verifharness/hx"
-
 	"github.com/iotaledger/hive.go/ds"
 	"github.com/iotaledger/hive.go/ds/reactive"
 )
@@ -81,9 +79,14 @@ func sameSet(a, b []int) bool {
 	return true
 }
 
+// failer receives property-oracle failures (hx.Run, or the per-case recorder of the sequential watchdog).
+type failer interface {
+	Fail(oracle, detail string, sig map[string]string)
+}
+
 // world is one construct under test.
 type world interface {
-	exec(r *hx.Run, f []string) string
+	exec(r failer, f []string) string
 }
 
 // region set pool /////////////////////////////////////////////////////////////////////////////////////////////////
@@ -158,7 +161,7 @@ func (w *dsWorld) expected() []int {
 	return out
 }
 
-func (w *dsWorld) exec(r *hx.Run, f []string) string {
+func (w *dsWorld) exec(r failer, f []string) string {
 	switch f[0] {
 	case "new":
 		return "ok"
@@ -230,7 +233,7 @@ func (w *srWorld) expected() []int {
 	return out
 }
 
-func (w *srWorld) exec(r *hx.Run, f []string) string {
+func (w *srWorld) exec(r failer, f []string) string {
 	switch f[0] {
 	case "new":
 		return "ok"
@@ -308,7 +311,7 @@ func (w *ctWorld) expected() int {
 	return n
 }
 
-func (w *ctWorld) exec(r *hx.Run, f []string) string {
+func (w *ctWorld) exec(r failer, f []string) string {
 	ans := ""
 	switch f[0] {
 	case "new":
@@ -444,7 +447,7 @@ func (w *ssWorld[E]) check() string {
 	return ""
 }
 
-func (w *ssWorld[E]) exec(r *hx.Run, f []string) string {
+func (w *ssWorld[E]) exec(r failer, f []string) string {
 	switch f[0] {
 	case "new":
 		return "ok"
@@ -482,7 +485,7 @@ func newEVWorld() *evWorld {
 	return &evWorld{state: reactive.NewEvictionState[int](), held: map[int]reactive.Event{}}
 }
 
-func (w *evWorld) exec(r *hx.Run, f []string) string {
+func (w *evWorld) exec(r failer, f []string) string {
 	ans := ""
 	switch f[0] {
 	case "new":
@@ -547,7 +550,7 @@ type wgWorld struct {
 	expect  bool // some Done removed the last pending element
 }
 
-func (w *wgWorld) exec(r *hx.Run, f []string) string {
+func (w *wgWorld) exec(r failer, f []string) string {
 	switch f[0] {
 	case "new":
 		w.pending = map[int]bool{}
@@ -592,7 +595,7 @@ func (w *wgWorld) exec(r *hx.Run, f []string) string {
 // wgRace replays the schedule of the Lean witness on the real code through the verif hook: Add(x) of an already
 // pending x is parked between the failed set insertion and the counter correction, Done(x) runs to completion, then
 // the Add continues.  Afterwards nothing is pending and the last pending element has been marked done.
-func wgRace(r *hx.Run, x int) string {
+func wgRace(r failer, x int) string {
 	wg := reactive.NewWaitGroup[int](x)
 	parked, resume := make(chan struct{}), make(chan struct{})
 	reactive.VerifWaitGroupAddWindow = func() {
